@@ -17,7 +17,7 @@ namespace sim {
 struct Action {
     enum Kind {
         run, publish, subscribe, unsubscribe, cancel, disconnect, destroy, signal,
-        broker_publish, net_kill, spurious_ack, hostile_bytes, set_silent, custom, reauth, replace, broker_disconnect,
+        broker_publish, net_kill, spurious_ack, hostile_bytes, set_silent, custom, reauth, replace, broker_disconnect, reconfigure,
         s_open, s_read, s_write, s_shutdown, s_cancel, s_close,    // autoconnect_stream level (Scenario::stream_mode)
         s_trigger                                                   // reconnect_op on a probe owner (Scenario::stream_mode == 2)
     } kind = run;
@@ -52,6 +52,7 @@ struct Action {
 struct Scenario {
     std::string family; uint64_t seed = 0; uint64_t index = 0;
     ClientCfg ccfg; BrokerCfg bcfg; NetCfg net;
+    ClientCfg ccfg2; bool has_ccfg2 = false;   // configuration applied by Action::reconfigure (between two runs)
     std::vector<AttemptPlan> attempts; AttemptPlan default_attempt; std::vector<Fault> faults;
     std::vector<Action> script;
     vt end = 30 * SEC;         // main phase runs until this virtual time
